@@ -210,6 +210,28 @@ def primResS : PrimRes → String
 /-- `Dev_getOwnPropertyNames_primitive`: Object.getOwnPropertyNames of a non-object returns [] -/
 def devPrim (f : ObjFn) : Bool := f == .getOwnPropertyNames
 
+/-! ### w <kind> <level> <desc> <form> <v>: `tag` defined on String/Number/Boolean.prototype (level 1) or on
+      Object.prototype (level 0), then assigned and read through a primitive;   r <desc>: read order of
+      ToPropertyDescriptor;   b <builtin>: a built-in creates an object under a polluted prototype -/
+
+def primObsS (o : PrimObs) : String :=
+  "|".intercalate [outS o.defOut, joinOr "," (o.calls.map callS), toString o.got, nameObsS o.holder]
+
+def orderS (x : List Nat × Bool) : String :=
+  joinOr "." (x.1.map toString) ++ "|" ++ (if x.2 then "T" else "ok")
+
+/-- `Dev_descriptor_read_order`: `value` is read after writable/get/set (ES5: third), and the conflict
+    TypeError is raised before `value` is read – visible when `value` is present together with another of them -/
+def devReadOrder (d : Desc) : Bool := d.v.isSome && (d.w.isSome || d.g.isPresent || d.s.isPresent)
+
+def builtin? : String → Option Builtin
+  | "json" => some .json | "literal" => some .literal | "arrlit" => some .arrlit | "defprops" => some .defprops
+  | "create" => some .create | "args" => some .args | "smatch" => some .smatch | "gopd" => some .gopd
+  | "keys" => some .keys | "map" => some .map | "split" => some .split | "slice" => some .slice
+  | "concat" => some .concat | "error" => some .error | _ => none
+
+def createsS (x : List Call × DescObs) : String := joinOr "," (x.1.map callS) ++ "|" ++ descS x.2
+
 def dedup : List String → List String
   | [] => []
   | x :: t => if (dedup t).contains x then dedup t else x :: dedup t
@@ -222,6 +244,18 @@ def handle (ws : List String) : String :=
     | some ops =>
       let dev := dedup (devRun [] ops)
       runS (run [] ops) ++ " " ++ runS (Spec.run [] ops) ++ " " ++ joinOr "," dev
+  | ["w", _kind, lvl, d, _form, v] =>
+    (match nat? lvl, desc? (d.splitOn "."), nat? v with
+     | some lvl, some d, some v => primObsS (primAssign lvl d v) ++ " " ++ primObsS (Spec.primAssign lvl d v) ++ " -"
+     | _, _, _ => "bad-op")
+  | ["r", d] =>
+    (match desc? (d.splitOn ".") with
+     | some (.obj d) => orderS (readOrder d) ++ " " ++ orderS (Spec.readOrder d) ++ " " ++ (if devReadOrder d then "descriptor_read_order" else "-")
+     | _ => "bad-op")
+  | ["b", b, _pol] =>
+    (match builtin? b with
+     | some b => createsS (builtinCreates b) ++ " " ++ createsS (Spec.builtinCreates b) ++ " -"
+     | none => "bad-op")
   | ["p", f, a] =>
     match objFn? f, primArg? a with
     | some f, some a =>
